@@ -1,7 +1,7 @@
 PROP = dict(
     gen=["octets"],
-    proof_files=["Properties/C20.v", "Proofs/FlagsProofs.v", "Proofs/OctetTables.v"],
-    model_files=["Model/Flags.v"],
+    proof_files=["Properties/C20.v", "Proofs/FlagsProofs.v", "Proofs/OctetTables.v", "Proofs/CivilProofs.v", "Proofs/SmppTimeProofs.v"],
+    model_files=["Model/Flags.v", "Model/Civil.v", "Model/SmppTime.v", "Spec/SmppTimeSpec.v"],
     trusted=["Gen/Octets.v is the complete 256-row tabulation of the running octet codecs (dumper: harness/gen_octets.go)"],
     assumptions=["encoding/json, fmt.Sscanf, time.Date and time.Time accessors are Go library code, tied by the exhaustive table / the generated cases only"],
 )
